@@ -3,6 +3,8 @@
 import json
 props=[json.loads(l) for l in open('/verif/properties.jsonl')]
 CLAIMED = {
+ 'C08': ("two- and three-operator inputs over user operators whose binding powers are symbolic float32 values (solver chooses orderings, fractional gaps, powers below 1) and whose fixity is any of left/right/non-associative/prefix/postfix parse to the tree the declarations dictate; a non-associative operator never chains in four contexts; 28 documented built-in forms parse as documented, 20 malformed inputs are rejected with a syntax error; every node's span re-parses to that node",
+         "tables of 1-2 user operators plus optionally the built-ins; expression depth <= 3; mixed associativity at equal power is not dictated (assumed away); no random token sequences yet"),
  'C13': ("text of string(...) is the same for every Go map iteration order (order is a symbolic schedule); evaluation writes nothing to stdout except through print; every history of <= 3 compile/invoke steps that reuses one *types.Env and one *val.Env gives the fresh-engine result, on all four back ends, through the public facade",
          "maps of 2 (quick) / 3 (thorough) entries; histories of length 3 over two expressions; host values through conv not covered (no reflect model)"),
  'C18': ("distinct finite doubles of any magnitude never render alike, never collide as map keys or set elements (solver over all pairs); ==, rendering, key identity, isset and union/intersect/diff agree on pairs of catalogue values with permuted fields; rendering is invariant under field order, insertion order and every map iteration order; shared sub-values render like unshared ones",
